@@ -21,6 +21,15 @@ Tie (all on the real code, in process):
       payload at generation time + age;
   (f') the Lean model of asn1tools' constrained-INTEGER encoding against asn1tools (synthetic SEQUENCE with the data
       elements' ranges; in-range values and values above the constraint);
+  (h) TRAJECTORIES: many reports on one CAM transmission management; the pathHistory of every low-frequency container
+      judged against the harness' own record of the positions CAMs were sent from (offsets at the limits of
+      DeltaLatitude / DeltaLongitude, the 23-point and 40-entry limits, pathDeltaTime clamps, reports without position),
+      every CAM of the trajectory must be handed to BTP and decode; compared with the model's `_get_path_history` +
+      send state;
+  (i) the VAM sending path in 17 clustering states (no manager, idle, standalone, the join / leave sub-states, passive,
+      leader with members / in the break-up warning) x LDM adapter absent / stub / the repository's adapter over a real
+      LDM: transmitted or silent as TS 103 300-3 says, the containers expected, the LDM fed the message that went to BTP;
+      compared with the model's `vamSend`;
   (g) the cluster information container built while another thread completes a cluster break-up / switches the VRU
       role off, under harness/dsched.py (all schedules up to a pre-emption bound), outcomes compared with the model's.
 Oracle: `oracle_fields` — the CDD definitions of each data element (TS 102 894-2), applied to the DECODED payload.
@@ -59,7 +68,12 @@ TRUSTED = [
     "mutual exclusion of `with self._lock` sections (Python RLock) - the interleaving model treats a lock section as one step; "
     "harness/dsched.py (schedule exploration of the real threads)",
     "the cluster state machine itself (when a VRU is leader / passive, cardinality bookkeeping) is C18's subject; C11 covers "
-    "the container values and that the container is a consistent snapshot",
+    "the container values, that the container is a consistent snapshot, and that the VAM reaches BTP in every state the "
+    "machine can be brought into (17 recipes through its public API)",
+    "path history: the double arithmetic `(h - current) * 10000000` and `(now - t) / 10` (the model receives the exact values "
+    "and its theorems hold for ANY offsets), that a PathPoint outside its constraints makes asn1tools raise or emit an "
+    "undecodable CAM (observed on the seeded tree), copy.deepcopy's protocol for tuple subclasses (regenerated fact "
+    "CHOICE_DEEPCOPYABLE from the class definition)",
 ]
 ASSUMPTIONS = [
     "reports within the stated ranges: lat -90..90, lon -180..180, altHAE -1000..10000 m, speed 0..200 m/s, track 0..360, "
@@ -68,6 +82,11 @@ ASSUMPTIONS = [
     "clock is not behind the generation instant (reception instant r with g <= r < g + 65536 ms)",
     "resolution clause read as |encoded - scaled measurement| < 1 unit (the code truncates, the CDD rounds up)",
     "DENM: the event position is the report-derived part; the other DENM components are compared built-vs-decoded only",
+    "path history: the intended value of a path point is the offset of an earlier CAM position from the CURRENT reference "
+    "position (what the service builds; the CDD's DF Path chains every point to the previous one - not judged); an offset "
+    "beyond the largest expressible one (131071 units) may be sent as `unavailable` (the element has no outOfRange code)",
+    "the LDM adapter's add_provider_data_to_ldm does not raise (send_next_vam feeds it BEFORE the VAM is encoded, unguarded; "
+    "exercised with a stub and with the repository's adapters over a real dictionary LDM)",
 ]
 
 ITS_EPOCH_MS = 1072915200000
@@ -284,7 +303,11 @@ def fields_cam(d):
     hf = p["highFrequencyContainer"][1]
     e = rp["positionConfidenceEllipse"]
     lf = p.get("lowFrequencyContainer")
-    return {"lat": rp["latitude"], "lon": rp["longitude"], "major": e["semiMajorAxisLength"], "minor": e["semiMinorAxisLength"],
+    path = None
+    if lf:
+        path = [(q["pathPosition"]["deltaLatitude"], q["pathPosition"]["deltaLongitude"], q["pathPosition"]["deltaAltitude"],
+                 q.get("pathDeltaTime")) for q in lf[1]["pathHistory"]]
+    return {"path": path, "lat": rp["latitude"], "lon": rp["longitude"], "major": e["semiMajorAxisLength"], "minor": e["semiMinorAxisLength"],
             "orient": e["semiMajorAxisOrientation"], "alt": rp["altitude"]["altitudeValue"],
             "altconf": rp["altitude"]["altitudeConfidence"], "heading": hf["heading"]["headingValue"],
             "hconf": hf["heading"]["headingConfidence"], "speed": hf["speed"]["speedValue"],
@@ -358,11 +381,12 @@ def decode_sent(kind, rec, payload):
 class CamStation:
     """ONE real CAM transmission management with a capturing BTP router"""
 
-    def __init__(self, coder, stype, role):
+    def __init__(self, coder, stype, role, ldm=None):
         self.cap = Cap()
         self.rec = RecCoder(coder)
+        self.ldm = ldm
         self.vd = ctm.VehicleData(station_id=11, station_type=stype, vehicle_role=role)
-        self.tm = ctm.CAMTransmissionManagement(self.cap, self.rec, self.vd, None)
+        self.tm = ctm.CAMTransmissionManagement(self.cap, self.rec, self.vd, ldm)
         self.tm._active = True
 
     def _collect(self, n0, what):
@@ -388,22 +412,22 @@ class CamStation:
             self.tm._evaluate_and_maybe_send()
         except Exception as e:
             return Msg(None, None, f"generation raised {type(e).__name__}")
-        return self._collect(n0, "no CAM at a T_CheckCamGen expiry more than T_GenCamMax after the previous CAM")
+        return self._collect(n0, "no CAM handed to BTP at a T_CheckCamGen expiry more than T_GenCamMax after the previous CAM (generation skipped: it stalls while the report stays)")
 
 
 class VamStation:
-    def __init__(self, coder, stype, clustering=None):
+    def __init__(self, coder, stype, clustering=None, ldm=None):
         self.cap = Cap()
         self.rec = RecCoder(coder)
         self.ddp = vtm.DeviceDataProvider(station_id=12, station_type=stype)
-        self.tm = vtm.VAMTransmissionManagement(self.cap, self.rec, self.ddp, None, clustering)
+        self.tm = vtm.VAMTransmissionManagement(self.cap, self.rec, self.ddp, ldm, clustering)
 
     def report(self, tpv):
         n0 = len(self.cap.sent)
         try:
             self.tm.location_service_callback(tpv)
         except Exception as e:
-            return Msg(None, None, f"generation raised {type(e).__name__}")
+            return Msg(None, None, f"generation raised {type(e).__name__}: {str(e)[:160]}")
         new = self.cap.sent[n0:]
         if not new:
             return Msg(None, None, "no VAM for a report more than T_GenVam after the previous VAM")
@@ -806,6 +830,252 @@ def check_roles(ctx, mb, stack, clk, rounds=1):
 
 
 # ------------------------------------------------------------------------------------------------
+# path history of the CAM low-frequency container over TRAJECTORIES (several reports on one transmission management)
+
+DELTA_MIN, DELTA_MAX, DELTA_UNAVAILABLE = -131071, 131071, 131072   # TS 102 894-2 DeltaLatitude / DeltaLongitude
+DELTA_ALT_UNAVAILABLE = 12800
+PDT_MIN, PDT_MAX = 1, 65535                                          # PathDeltaTime, unit 10 ms
+LF_PATH_MAX = 23                                                     # EN 302 637-2: pathHistory of up to 23 points
+PATH_STORE = 40
+DE_LIMITS = [-131073, -131072, -131071, -131070, 131070, 131071, 131072, 131073]
+
+
+def read_ms(clk):
+    """the millisecond the transmission management reads from the clock (`int(TimeService.time() * 1000)`)"""
+    return int((clk.ms / 1000.0) * 1000)
+
+
+def oracle_path(tpv, now_ms, earlier, path):
+    """CDD reading of the decoded pathHistory against the harness' own record `earlier` = [(lat, lon, t_ms)] (oldest first)
+    of the reports for which a CAM was handed to BTP.  Intent of the service: point i = the i-th newest earlier position
+    as an offset from the position of this CAM, its age in 10 ms; deltaAltitude unavailable (altitude is not tracked)."""
+    bad = []
+    if path is None:
+        return bad
+    if len(path) > LF_PATH_MAX:
+        bad.append(f"{len(path)} path points, the low-frequency container allows {LF_PATH_MAX}")
+    if path and ("lat" not in tpv or "lon" not in tpv):
+        return bad + [f"{len(path)} path points in a CAM whose report has no position"]
+    prev = list(reversed(earlier))
+    if len(path) > len(prev):
+        bad.append(f"{len(path)} path points but only {len(prev)} earlier CAM positions")
+    for i, (dlat, dlon, dalt, pdt) in enumerate(path[:len(prev)]):
+        hlat, hlon, ht = prev[i]
+        for name, d, h, c in (("deltaLatitude", dlat, hlat, tpv["lat"]), ("deltaLongitude", dlon, hlon, tpv["lon"])):
+            exact = (Fraction(h) - Fraction(c)) * 10_000_000      # the offset of the two reported doubles, exactly
+            if not DELTA_MIN <= d <= DELTA_UNAVAILABLE:
+                bad.append(f"point {i}: {name} {d} outside the constraint {DELTA_MIN}..{DELTA_UNAVAILABLE}")
+            elif d == DELTA_UNAVAILABLE:
+                if exact <= DELTA_MAX:
+                    bad.append(f"point {i}: {name} is `unavailable` for a representable offset of {float(exact):.3f} units")
+            elif abs(d - exact) >= 1 + EPS:
+                bad.append(f"point {i}: {name} {d} for an offset of {float(exact):.3f} units to the CAM position {i + 1} back "
+                           f"({h!r} seen from {c!r})")
+        if dalt != DELTA_ALT_UNAVAILABLE:
+            bad.append(f"point {i}: deltaAltitude {dalt} although no altitude history is kept (unavailable is {DELTA_ALT_UNAVAILABLE})")
+        age = (now_ms - ht) / 10.0
+        if pdt is None or not PDT_MIN <= pdt <= PDT_MAX:
+            bad.append(f"point {i}: pathDeltaTime {pdt} outside {PDT_MIN}..{PDT_MAX}")
+        elif abs(pdt - min(max(age, PDT_MIN), PDT_MAX)) > 1.2 and not (age >= PDT_MAX - 1 and pdt >= PDT_MAX - 1):
+            bad.append(f"point {i}: pathDeltaTime {pdt} (x 10 ms) for a position {age * 10:.0f} ms old")
+    return bad
+
+
+def run_trajectory(stack, steps, stype, role, clk, ldm_kind="none"):
+    """`steps` = [(gap_ms, tpv)] on ONE CAM transmission management: after each report one generation (a T_CheckCamGen
+    expiry when the gap exceeds T_GenCamMax, else a direct generation attempt: dynamics triggered).
+    The transmission management has the LDM adapter `ldm_kind` (none / stub / the repository's adapter over a real LDM).
+    -> (station, [(tpv, now_gen, now_read, msg, earlier, store_len)])"""
+    st = CamStation(stack.cam_coder, stype, role, make_ldm(ldm_kind, "cam"))
+    earlier, out = [], []
+    for gap, tpv in steps:
+        clk.advance(gap)
+        tpv = dict(tpv, time=iso(clk.ms))
+        snap = list(earlier)
+        n0 = len(st.cap.sent)
+        if gap >= 1001:
+            now_gen = read_ms(clk)
+            msg = st.report_and_tick(tpv)
+        else:
+            now_gen = clk.ms
+            msg = st.attempt(tpv, now_gen)
+        if len(st.cap.sent) > n0 and "lat" in tpv and "lon" in tpv:
+            earlier.append((tpv["lat"], tpv["lon"], now_gen))
+        if st.ldm is not None and not msg.err:
+            want = len(st.cap.sent)
+            if len(st.ldm.fed) != want:
+                msg.diffs.append(("/ldm", f"{len(st.ldm.fed)} messages fed to the LDM adapter after {want} CAMs handed to BTP"))
+            elif want > n0:
+                d = tree_diff(st.ldm.fed[-1], st.rec.last)
+                if d:
+                    msg.diffs.append(("/ldm", f"the message fed to the LDM adapter is not the CAM handed to BTP: {d[0][1]}"))
+        out.append((tpv, now_gen, read_ms(clk), msg, snap, len(st.tm._path_history)))
+    return st, out
+
+
+def show_path(path):
+    return " ".join([str(len(path))] + [f"{a},{b},{c},{d}" for a, b, c, d in path])
+
+
+def _base(rng):
+    lat, lon = rng.uniform(-89, 89), rng.uniform(-179, 179)
+    if rng.random() < 0.5:
+        lat, lon = round(lat, rng.choice([0, 4, 7])), round(lon, rng.choice([0, 4, 7]))
+    return lat, lon
+
+
+def _moving(rng, lat, lon, extra=True):
+    t = {"class": "TPV", "mode": 3, "lat": lat, "lon": lon, "speed": rng.choice([0.0, 13.9, 91.4]), "track": rng.choice([0.0, 90.0, 271.3])}
+    if extra and rng.random() < 0.3:
+        for k in ("altHAE", "epx", "epy", "epv", "epd"):
+            if rng.random() < 0.5:
+                t[k] = rand_value(rng, k)
+    return t
+
+
+def traj_limit(rng, axis=None, d=None, n_mid=None, still=None, base=None):
+    """a CAM at P, `n_mid` CAMs on the way, then the vehicle stands at Q from where P is seen at a rounded offset of `d`
+    units (a limit of DeltaLatitude / DeltaLongitude or a neighbour) on `axis`"""
+    lat0, lon0 = base or _base(rng)
+    axis = axis or rng.choice(["lat", "lon", "both"])
+    d = d if d is not None else rng.choice(DE_LIMITS)
+    n_mid = rng.randrange(0, 4) if n_mid is None else n_mid
+    still = rng.randrange(1, 5) if still is None else still
+    other = rng.randrange(-3000, 3000)
+    dlat = d if axis in ("lat", "both") else other
+    dlon = (d if axis != "both" else rng.choice([d, -d, other])) if axis in ("lon", "both") else other
+    qlat, qlon = lat0 - dlat * 1e-7, lon0 - dlon * 1e-7
+    pts = [(lat0, lon0)] + [(lat0 + (qlat - lat0) * k / (n_mid + 1), lon0 + (qlon - lon0) * k / (n_mid + 1)) for k in range(1, n_mid + 1)]
+    pts += [(qlat, qlon)] * (1 + still)
+    gaps = [rng.choice([1001, 1001, 1500, 600])] * len(pts)
+    return [(g, _moving(rng, la, lo, extra=False)) for g, (la, lo) in zip(gaps, pts)]
+
+
+def traj_uniform(rng):
+    """uniform motion: after k equal steps the first CAM position is `total` units away, then standstill"""
+    lat0, lon0 = _base(rng)
+    k = rng.choice([1, 2, 4, 8, 16, rng.randrange(1, 23)])
+    total = rng.choice(DE_LIMITS)
+    axis = rng.choice(["lat", "lon"])
+    step = total / k * 1e-7
+    pts = [(lat0 - i * step, lon0) if axis == "lat" else (lat0, lon0 - i * step) for i in range(k + 1)]
+    pts += [pts[-1]] * rng.randrange(1, 4)
+    return [(1001, _moving(rng, la, lo, extra=False)) for la, lo in pts]
+
+
+def traj_walk(rng, n=None, holes=0.0, gaps=(100, 300, 499, 500, 600, 1001, 1500)):
+    """a random walk with mixed generation gaps; `holes`: probability that a report lacks lat and/or lon"""
+    lat, lon = _base(rng)
+    n = n or rng.randrange(3, 9)
+    big = rng.random() < 0.3
+    out = []
+    for _ in range(n):
+        t = _moving(rng, lat, lon)
+        if rng.random() < holes:
+            for k in rng.choice([("lat",), ("lon",), ("lat", "lon")]):
+                del t[k]
+        out.append((rng.choice(gaps), t))
+        s = 60000 if big else 3000
+        lat = max(-89.9, min(89.9, lat + rng.randrange(-s, s + 1) * 1e-7))
+        lon = max(-179.9, min(179.9, lon + rng.randrange(-s, s + 1) * 1e-7))
+    return out
+
+
+def gen_trajectory(rng):
+    r = rng.random()
+    if r < 0.35:
+        return traj_limit(rng)
+    if r < 0.55:
+        return traj_uniform(rng)
+    if r < 0.75:
+        return traj_walk(rng)
+    if r < 0.85:
+        return traj_walk(rng, holes=0.35)
+    if r < 0.93:
+        return traj_walk(rng, n=rng.randrange(3, 6), gaps=(1001, 5000, 60_000, 655_000, 655_340, 655_350, 700_000, 10_000_000))
+    return traj_walk(rng, n=rng.randrange(24, 48))
+
+
+def systematic_trajectories():
+    """every limit of DeltaLatitude / DeltaLongitude and its neighbours, on each axis, reached directly and over two CAMs on
+    the way, followed by a standstill; a store longer than the low-frequency container and longer than the store itself"""
+    rng = _random.Random(11)
+    out = []
+    for axis in ("lat", "lon"):
+        for d in DE_LIMITS:
+            for n_mid in (0, 2):
+                out.append(traj_limit(rng, axis, d, n_mid, 3, base=(41.3851234, 2.1734035) if n_mid else (60.0, 2.0)))
+    out.append(traj_walk(_random.Random(12), n=46, gaps=(1001,)))
+    out.append([(1001, {"class": "TPV", "mode": 3, "lat": 10.0, "lon": 20.0}), (1001, {"class": "TPV", "mode": 1}),
+                (1001, {"class": "TPV", "mode": 3, "lat": 10.001, "lon": 20.0}), (1001, {"class": "TPV", "mode": 2, "lat": 10.001})])
+    return out
+
+
+def judge_trajectory_step(tpv, now_read, msg, earlier, stype, role, stack):
+    viols = judge("cam", tpv, stype, role, msg, stack)
+    if msg.dec is not None:
+        viols += [(f"CAM pathHistory: {b}", None) for b in oracle_path(tpv, now_read, earlier, msg.dec["path"])]
+    return viols
+
+
+def check_trajectories(ctx, mb, stack, trajs, clk, tag):
+    lines, expect = [], []
+    for ti, steps in enumerate(trajs):
+        stype = ctx.rng.randrange(0, 16)
+        role = ctx.rng.randrange(0, 16)
+        ldm_kind = LDM_KINDS[ti % 3]
+        st, res = run_trajectory(stack, steps, stype, role, clk, ldm_kind)
+        ctx.cover(f"cam_ldm_{ldm_kind}")
+        lines.append("reset")
+        expect.append(None)
+        case = {"kind": "trajectory", "steps": [[g, {k: v for k, v in t.items() if k != "time"}] for g, t in steps], "stype": stype,
+                "role": role, "ldm": ldm_kind}
+        ctx.cover("trajectory_len_%s" % ("41+" if len(steps) > 40 else "24..40" if len(steps) >= 24 else len(steps)))
+        for i, (tpv, now_gen, now_read, msg, earlier, store_len) in enumerate(res):
+            ctx.evals()
+            pos = "lat" in tpv and "lon" in tpv
+            viols = judge_trajectory_step(tpv, now_read, msg, earlier, stype, role, stack)
+            report_violations(ctx, viols,
+                              f"  [report #{i + 1} of a trajectory of {len(steps)} reports on one transmission management: "
+                              f"{ {k: tpv[k] for k in ('lat', 'lon') if k in tpv} }; CAMs sent before: {len(earlier)}"
+                              + (f", the last at {earlier[-1][:2]}]" if earlier else "]"), case)
+            # model: the store as the harness recorded it, seen from the reported position by the code's double arithmetic
+            offs = []
+            if pos:
+                for hlat, hlon, ht in list(reversed(earlier))[:PATH_STORE]:
+                    offs.append(f"{fr((hlat - tpv['lat']) * 10_000_000)}:{fr((hlon - tpv['lon']) * 10_000_000)}:{fr((now_read - ht) / 10)}")
+                    for dd in (round((hlat - tpv["lat"]) * 10_000_000), round((hlon - tpv["lon"]) * 10_000_000)):
+                        if dd in DE_LIMITS:
+                            ctx.cover(f"path_offset_{dd}")
+            lines.append(f"phtick {now_gen} {1 if pos else 0} " + " ".join(offs))
+            if msg.payload is None:
+                real = f"skipped hist={store_len}"
+                ctx.cover("trajectory_cam_skipped")
+            else:
+                path = msg.built["path"] if msg.built else None
+                real = "sent " + ("-" if path is None else show_path(path)) + f" hist={store_len}"
+                if path is not None:
+                    ctx.cover("path_points_%s" % (len(path) if len(path) < 3 else "3..22" if len(path) < LF_PATH_MAX else LF_PATH_MAX))
+                    if pos and len(path) < min(len(earlier), LF_PATH_MAX):
+                        ctx.cover("path_cut_at_range_limit")
+                    if any(p[3] in (1, 65534) for p in path):
+                        ctx.cover("path_delta_time_clamped")
+                if msg.dec is not None:
+                    ctx.nontrivial(("path", tuple(msg.dec["path"] or ())))
+            if store_len >= PATH_STORE:
+                ctx.cover("path_store_full")
+            expect.append((real, tpv))
+        if ti == 0:
+            ctx.sample("trajectory", case)
+
+    def compare(out):
+        for e, mo in zip(expect, out):
+            if e is not None and e[0] != mo:
+                ctx.mismatch(f"trajectory/{tag}", {"tpv": present(e[1])}, e[0], mo)
+    mb.add(lines, compare)
+
+
+# ------------------------------------------------------------------------------------------------
 # generationDeltaTime, sender and receiver side
 
 AGES = (0, 1, 2, 65000, 65534, 65535)
@@ -868,30 +1138,40 @@ def check_gdt(ctx, mb, n, extra=()):
     mb.add(lines, compare)
 
 
-def rx_once(stack, kind, g, age, clk):
+def rx_once(stack, kind, g, age, clk, ldm_kind="real"):
     """a CAM / VAM generated at UTC ms `g` (clock and report time), its payload handed to the real reception management
-    when the clock shows g + age -> (reconstructed utc_timestamp | None, error, clock reading tokens)"""
+    (with the repository's LDM adapter over a real LDM) when the clock shows g + age
+    -> (reconstructed utc_timestamp | None, error)"""
     tpv = {"class": "TPV", "mode": 3, "time": iso(g), "lat": 41.0, "lon": 2.0, "speed": 1.0}
     clk.ms = g
     msg = stack.one(kind, tpv, 5 if kind == "cam" else 1, 0)
     if msg.err or msg.payload is None:
         return None, msg.err or "no payload"
     got = []
+    ldm = make_ldm(ldm_kind, kind)
     try:
         if kind == "cam":
-            rx = crm.CAMReceptionManagement(stack.cam_coder, Cap(), None)
+            rx = crm.CAMReceptionManagement(stack.cam_coder, Cap(), ldm)
             rx.add_application_callback(lambda cam: got.append(cam["utc_timestamp"]))
-            clk.ms = g + age
-            rx.reception_callback(BTPDataIndication(data=msg.payload, length=len(msg.payload)))
         else:
-            class Ldm:
-                def add_provider_data_to_ldm(self, vam):
-                    got.append(vam["utc_timestamp"])
-            rx = vrm.VAMReceptionManagement(stack.vam_coder, Cap(), Ldm(), None)
-            clk.ms = g + age
-            rx.reception_callback(BTPDataIndication(data=msg.payload, length=len(msg.payload)))
+            rx = vrm.VAMReceptionManagement(stack.vam_coder, Cap(), ldm, None)
+        clk.ms = g + age
+        rx.reception_callback(BTPDataIndication(data=msg.payload, length=len(msg.payload)))
     except Exception as e:
-        return None, f"reception raised {type(e).__name__}"
+        return None, f"reception raised {type(e).__name__}: {str(e)[:160]}"
+    if ldm is not None:
+        if len(ldm.fed) != 1:
+            return None, f"the reception management fed {len(ldm.fed)} messages to the LDM adapter"
+        fed = ldm.fed[0]
+        if "utc_timestamp" not in fed:
+            return None, "the message fed to the LDM carries no utc_timestamp"
+        body = {k: v for k, v in fed.items() if k != "utc_timestamp"}
+        d = tree_diff(norm(stack.cam_coder.decode(msg.payload) if kind == "cam" else stack.vam_coder.decode(msg.payload)), body)
+        if d:
+            return None, f"the message fed to the LDM is not the message received: {d[0][1]}"
+        if got and int(got[0]) != int(fed["utc_timestamp"]):
+            return None, f"LDM dated {fed['utc_timestamp']}, application callback {got[0]}"
+        got = got or [fed["utc_timestamp"]]
     if not got:
         return None, "the reception management delivered nothing"
     return int(got[0]), None
@@ -927,6 +1207,314 @@ def check_rx(ctx, mb, stack, clk, n, extra=()):
         for ln, r, mo in zip(lines, reals, out):
             if r != mo:
                 ctx.mismatch("rx", ln, r, mo)
+    mb.add(lines, compare)
+
+
+# ------------------------------------------------------------------------------------------------
+# the VAM between construction and BTP: clustering state x LDM adapter
+
+
+class LdmRecorder:
+    """an LDM adapter that records what it is fed; `inner` = the repository's own adapter over a real LDM (None: stub)"""
+
+    def __init__(self, inner=None):
+        self.inner, self.fed = inner, []
+
+    def add_provider_data_to_ldm(self, msg):
+        self.fed.append(norm(msg))
+        if self.inner is not None:
+            self.inner.add_provider_data_to_ldm(msg)
+
+
+LDM_KINDS = ("none", "stub", "real")
+
+
+def make_ldm(kind, which):
+    """which = "vam" | "cam": the repository's VRUBasicServiceLDM / CABasicServiceLDM over an LDM facility (dictionary
+    data base, reactive maintenance and service: no threads, no files), as VRUAwarenessService / CABasicService wire it"""
+    if kind == "none":
+        return None
+    if kind == "stub":
+        return LdmRecorder()
+    from flexstack.facilities.local_dynamic_map.factory import LDMFactory
+    from flexstack.facilities.local_dynamic_map.ldm_classes import Location, AccessPermission
+    logging.getLogger("local_dynamic_map").setLevel(logging.CRITICAL + 10)
+    ldm = LDMFactory().create_ldm(Location.initializer(latitude=413851234, longitude=21734035), "Reactive", "Reactive", "Dictionary")
+    if which == "vam":
+        from flexstack.facilities.vru_awareness_service.vam_ldm_adaptation import VRUBasicServiceLDM
+        return LdmRecorder(VRUBasicServiceLDM(ldm, (AccessPermission.VAM,), 5))
+    from flexstack.facilities.ca_basic_service.cam_ldm_adaptation import CABasicServiceLDM
+    return LdmRecorder(CABasicServiceLDM(ldm, (AccessPermission.CAM,), 5))
+
+
+def _leader_vam(coder, sid, cid, g, op=None):
+    """a cluster VAM of a neighbouring leader (through the repository's coder, as the reception management delivers it)"""
+    m = vtm.VAMMessage()
+    m.fullfill_with_device_data(vtm.DeviceDataProvider(station_id=sid, station_type=1))
+    m.fullfill_with_tpv_data({"time": iso(g), "lat": 41.00001, "lon": 2.0, "speed": 1.0, "track": 90.0})
+    params = m.vam["vam"]["vamParameters"]
+    params["vruClusterInformationContainer"] = {"vruClusterInformation": {
+        "clusterId": cid, "clusterBoundingBoxShape": ("circular", {"radius": 5}), "clusterCardinalitySize": 3}}
+    if op:
+        params["vruClusterOperationContainer"] = op
+    return coder.decode(coder.encode(m.vam))
+
+
+def _member_vam(coder, sid, g, op):
+    m = vtm.VAMMessage()
+    m.fullfill_with_device_data(vtm.DeviceDataProvider(station_id=sid, station_type=1))
+    m.fullfill_with_tpv_data({"time": iso(g), "lat": 41.00002, "lon": 2.0, "speed": 1.0, "track": 90.0})
+    m.vam["vam"]["vamParameters"]["vruClusterOperationContainer"] = op
+    return coder.decode(coder.encode(m.vam))
+
+
+CID, JOIN_CID = 77, 55
+R = vcl.ClusterLeaveReason
+B = vcl.ClusterBreakupReason
+
+
+def _to_leader(stack, cm, now):
+    for k in range(3):
+        cm.on_received_vam(_neighbour_vam(stack.vam_coder, 100 + k, 41.0 + 1e-6 * k, 2.0, T0))
+    if not cm.try_create_cluster(41.0, 2.0):
+        raise Infra("cluster recipe: try_create_cluster refused")
+
+
+def _to_waiting(stack, cm, now):
+    if not cm.initiate_join(JOIN_CID):
+        raise Infra("cluster recipe: initiate_join refused")
+    now[0] += 3.0
+    cm.update(41.0, 2.0, 1.0, 90.0)
+
+
+def _to_passive(stack, cm, now):
+    _to_waiting(stack, cm, now)
+    cm.on_received_vam(_leader_vam(stack.vam_coder, 200, JOIN_CID, T0))
+    if cm.state is not vcl.VBSState.VRU_PASSIVE:
+        raise Infra("cluster recipe: the join was not completed")
+
+
+def _r_idle(stack, cm, now):
+    cm.set_vru_role_off()
+
+
+def _r_idle_on(stack, cm, now):
+    cm.set_vru_role_off()
+    cm.set_vru_role_on()
+
+
+def _r_join_notify(stack, cm, now):
+    if not cm.initiate_join(JOIN_CID):
+        raise Infra("cluster recipe: initiate_join refused")
+    now[0] += 1.0
+
+
+def _r_join_cancelled(stack, cm, now):
+    _r_join_notify(stack, cm, now)
+    cm.cancel_join()
+
+
+def _r_join_failed(stack, cm, now):
+    _to_waiting(stack, cm, now)
+    now[0] += 0.5
+    cm.update(41.0, 2.0, 1.0, 90.0)
+
+
+def _r_passive_leave(stack, cm, now):
+    _to_passive(stack, cm, now)
+    cm.trigger_leave_cluster(R.SAFETY_CONDITION)
+
+
+def _r_leader_lost(stack, cm, now):
+    _to_passive(stack, cm, now)
+    now[0] += 2.0
+    cm.update(41.0, 2.0, 1.0, 90.0)
+
+
+def _r_disbanded(stack, cm, now):
+    _to_passive(stack, cm, now)
+    cm.on_received_vam(_leader_vam(stack.vam_coder, 200, JOIN_CID, T0, {"clusterBreakupInfo": {
+        "clusterBreakupReason": "clusteringPurposeCompleted", "breakupTime": 4}}))
+
+
+def _r_leader_members(stack, cm, now):
+    _to_leader(stack, cm, now)
+    for sid in (301, 302):
+        cm.on_received_vam(_member_vam(stack.vam_coder, sid, T0, {"clusterJoinInfo": {"clusterId": CID, "joinTime": 4}}))
+
+
+def _r_leader_member_left(stack, cm, now):
+    _r_leader_members(stack, cm, now)
+    cm.on_received_vam(_member_vam(stack.vam_coder, 301, T0, {"clusterLeaveInfo": {"clusterId": CID, "clusterLeaveReason": "notProvided"}}))
+
+
+def _r_breakup(stack, cm, now):
+    _to_leader(stack, cm, now)
+    if not cm.trigger_breakup_cluster(B.ENTERING_LOW_RISK_AREA):
+        raise Infra("cluster recipe: trigger_breakup_cluster refused")
+    now[0] += 1.0
+
+
+def _r_breakup_done(stack, cm, now):
+    _r_breakup(stack, cm, now)
+    now[0] += 2.5
+    cm.update(41.0, 2.0, 1.0, 90.0)
+
+
+def _info(card):
+    return {"id": CID, "radius": 5, "card": card}
+
+
+# name -> (preparation of a fresh clustering manager | None: no manager, what TS 103 300-3 clause 5.4 / 6 asks of the next
+# VAM: transmitted?, cluster information container, cluster operation container)
+VAM_STATES = {
+    "no_manager": (None, True, None, None),
+    "standalone": (lambda *a: None, True, None, None),
+    "idle": (_r_idle, False, None, None),
+    "idle_then_role_on": (_r_idle_on, True, None, None),
+    "join_notify": (_r_join_notify, True, None, {"clusterJoinInfo": {"clusterId": JOIN_CID, "joinTime": 8}}),
+    "join_waiting": (_to_waiting, True, None, None),
+    "join_cancelled": (_r_join_cancelled, True, None, {"clusterLeaveInfo": {"clusterId": JOIN_CID, "clusterLeaveReason": "cancelledJoin"}}),
+    "join_failed": (_r_join_failed, True, None, {"clusterLeaveInfo": {"clusterId": JOIN_CID, "clusterLeaveReason": "failedJoin"}}),
+    "passive": (_to_passive, False, None, None),
+    "passive_leaving": (_r_passive_leave, True, None, {"clusterLeaveInfo": {"clusterId": JOIN_CID, "clusterLeaveReason": "safetyCondition"}}),
+    "passive_leader_lost": (_r_leader_lost, True, None, {"clusterLeaveInfo": {"clusterId": JOIN_CID, "clusterLeaveReason": "clusterLeaderLost"}}),
+    "passive_disbanded": (_r_disbanded, True, None, {"clusterLeaveInfo": {"clusterId": JOIN_CID, "clusterLeaveReason": "clusterDisbandedByLeader"}}),
+    "leader": (_to_leader, True, _info(1), None),
+    "leader_two_joining": (_r_leader_members, True, _info(3), None),
+    "leader_one_left": (_r_leader_member_left, True, _info(2), None),
+    "leader_breakup_warning": (_r_breakup, True, _info(1), {"clusterBreakupInfo": {"clusterBreakupReason": "enteringLowRiskAreaBasedOnMaps", "breakupTime": 8}}),
+    "leader_breakup_done": (_r_breakup_done, True, None, None),
+}
+
+_VBS_NAMES = {"VRU_IDLE": "idle", "VRU_ACTIVE_STANDALONE": "standalone", "VRU_ACTIVE_CLUSTER_LEADER": "leader", "VRU_PASSIVE": "passive"}
+
+
+def cl_tokens(cm):
+    """what the model's `ClState` abstracts of the manager (read from its attributes)"""
+    if cm is None:
+        return "none 0 0 none 0"
+    cl = cm._cluster
+    return " ".join([_VBS_NAMES[cm._state.name], "1" if cl is not None else "0",
+                     "1" if cl is not None and cl.breakup_started is not None else "0", cm._join_substate.name.lower(),
+                     "1" if cm._leave_substate is vcl._LeaveSubstate.NOTIFY else "0"])
+
+
+def vam_state_run(stack, state, ldm_kind, reports, stype, clk):
+    """a fresh VAM transmission management with the clustering manager brought into `state` and the LDM adapter
+    `ldm_kind`; `reports` one after the other (T_GenVam apart) -> [(tpv, Msg, fed messages, model tokens)]"""
+    prep = VAM_STATES[state][0]
+    now = [1000.0]
+    cm = None
+    if prep is not None:
+        saved = vcl.random
+        vcl.random = _FixedRandom(CID)
+        try:
+            cm = vcl.VBSClusteringManager(own_station_id=12, time_fn=lambda: now[0])
+            prep(stack, cm, now)
+        finally:
+            vcl.random = saved
+    ldm = make_ldm(ldm_kind, "vam")
+    st = VamStation(stack.vam_coder, stype, cm, ldm)
+    out = []
+    for tpv in reports:
+        clk.advance(1001)
+        tpv = dict(tpv, time=iso(clk.ms))
+        tokens = cl_tokens(cm)
+        n0 = len(ldm.fed) if ldm else 0
+        msg = st.report(tpv)
+        out.append((tpv, msg, (ldm.fed[n0:] if ldm else []), tokens))
+    return out
+
+
+def containers_of(d):
+    """(cluster information, cluster operation) of a VAM dict in a comparable form"""
+    if d is None:
+        return None, None
+    p = d["vam"]["vamParameters"]
+    info = p.get("vruClusterInformationContainer")
+    if info is not None:
+        ci = info["vruClusterInformation"]
+        shape = ci.get("clusterBoundingBoxShape")
+        info = {"id": ci.get("clusterId"), "radius": shape[1].get("radius") if shape and shape[0] == "circular" else None,
+                "card": ci.get("clusterCardinalitySize")}
+    return info, p.get("vruClusterOperationContainer")
+
+
+def judge_vam_state(state, ldm_kind, tpv, msg, fed, stype, stack, decoded):
+    """TS 103 300-3: who transmits (Table 1 / clause 6.3), which containers the VAM carries (clauses 7.3.5, 7.3.6), and the
+    property's own clauses for the report-derived part; the LDM adapter is fed the message that went to BTP"""
+    _, tx, want_info, want_op = VAM_STATES[state]
+    tag = f"VAM of a VRU in clustering state `{state}` with LDM adapter `{ldm_kind}`"
+    if not tx:
+        if msg.payload is not None:
+            return [(f"{tag}: a VAM was transmitted although the state forbids it", None)]
+        if msg.err and "raised" in msg.err:
+            return [(f"{tag}: {msg.err}", None)]
+        return []
+    out = [(f"{tag}: {w}", f) for w, f in judge("vam", tpv, stype, 0, msg, stack)]
+    if decoded is None:
+        return out
+    info, op = containers_of(decoded)
+    if info != want_info:
+        out.append((f"{tag}: cluster information container {info}, expected {want_info}", None))
+    if (op is None) != (want_op is None) or (op is not None and set(op) != set(want_op)):
+        out.append((f"{tag}: cluster operation container {op}, expected {want_op}", None))
+    elif op is not None:
+        for k, w in want_op.items():
+            for f, v in w.items():
+                got = op[k].get(f)
+                ok = abs(got - v) <= 1 and 1 <= got <= 127 if f in ("joinTime", "breakupTime") and isinstance(got, int) else got == v
+                if not ok:
+                    out.append((f"{tag}: {k}.{f} is {got!r}, expected {v!r}", None))
+    if ldm_kind != "none":
+        if len(fed) != 1:
+            out.append((f"{tag}: the LDM adapter was fed {len(fed)} messages for one VAM", None))
+        else:
+            body = {k: v for k, v in fed[0].items() if k != "utc_timestamp"}
+            d = tree_diff(body, norm(decoded))
+            if d:
+                out.append((f"{tag}: the message fed to the LDM differs from the VAM handed to BTP: {d[0][1]}", None))
+    return out
+
+
+def check_vam_states(ctx, mb, stack, clk, rounds=1, states=None):
+    lines, expect = [], []
+    for rnd in range(rounds):
+        for state in (states or VAM_STATES):
+            for ldm_kind in LDM_KINDS:
+                stype = ctx.rng.randrange(0, 16)
+                reports = [dict(BASE) if rnd == 0 else gen_report(ctx.rng, None, 0.1), gen_report(ctx.rng, None, ctx.rng.choice([0.0, 0.3]))]
+                try:
+                    res = vam_state_run(stack, state, ldm_kind, reports, stype, clk)
+                except Infra:
+                    raise
+                for i, (tpv, msg, fed, tokens) in enumerate(res):
+                    ctx.evals()
+                    decoded = None
+                    if msg.payload is not None and not msg.err:
+                        decoded = stack.vam_coder.decode(msg.payload)
+                    case = {"kind": "vamstate", "state": state, "ldm": ldm_kind, "stype": stype,
+                            "reports": [{k: v for k, v in t.items() if k != "time"} for t, _, _, _ in res[:i + 1]]}
+                    report_violations(ctx, judge_vam_state(state, ldm_kind, tpv, msg, fed, stype, stack, decoded),
+                                      f"  [report #{i + 1}: {present(tpv)}]", case)
+                    if msg.payload is not None:
+                        info, op = containers_of(decoded) if decoded else (None, None)
+                        real = f"sent {1 if info else 0} {1 if op else 0} {1 if fed else 0}"
+                    elif msg.err and "raised" in msg.err:
+                        real = "fail"
+                    else:
+                        real = "silent"
+                    ctx.cover(f"vam_state_{state}")
+                    ctx.cover(f"vam_ldm_{ldm_kind}_{real.split()[0]}")
+                    ctx.nontrivial(("vamstate", state, ldm_kind, real))
+                    lines.append(f"vamsend {tokens} {0 if ldm_kind == 'none' else 1}")
+                    expect.append((real, state, ldm_kind))
+
+    def compare(out):
+        for e, mo in zip(expect, out):
+            if e[0] != mo:
+                ctx.mismatch("vam-send", {"state": e[1], "ldm": e[2]}, e[0], mo)
     mb.add(lines, compare)
 
 
@@ -1140,7 +1728,7 @@ def check_corpus_replays(ctx, corp):
     import contextlib
     import io
     for c in corp:
-        if c.get("kind") in ("roles", "rx", "rec", "cluster"):
+        if c.get("kind") in ("roles", "rx", "rec", "cluster", "vamstate"):
             with contextlib.redirect_stdout(io.StringIO()) as buf:
                 bad = replay(ctx, {"case": c})
             ctx.evals()
@@ -1155,7 +1743,11 @@ def run(ctx):
                          "through the real CAM, VAM and DENM sending paths, stateless (fresh station) and as histories of 2-5 reports "
                          "with varying field subsets on one station; all 16 station types x all 16 vehicle roles; every boundary value "
                          "and every single omission systematically; generationDeltaTime over three eras, ages 0/1/65535, through the "
-                         "real reception managements; the cluster container under all schedules up to the pre-emption bound; "
+                         "real reception managements (feeding the repository's LDM adapters over a real LDM); trajectories of 3-48 "
+                         "reports on one CAM transmission management with path-history offsets at and around the limits of "
+                         "DeltaLatitude/DeltaLongitude, standstills, reports without position, generation gaps from 100 ms to hours; "
+                         "17 clustering states x {no, stub, real} LDM adapter on the VAM sending path; "
+                         "the cluster container under all schedules up to the pre-emption bound; "
                          "distinct_nontrivial counts distinct decoded field tuples / outcomes")
     st = stack()
     mb = ModelBatch(ctx)
@@ -1169,6 +1761,9 @@ def run(ctx):
         check_reports(ctx, mb, st, [gen_report(ctx.rng) for _ in range(ctx.scale(1500, 150000))], "random")
         check_histories(ctx, mb, st, [gen_history(ctx.rng) for _ in range(ctx.scale(250, 15000))], clk, "random")
         check_roles(ctx, mb, st, clk, ctx.scale(1, 30))
+        check_trajectories(ctx, mb, st, [c["steps"] for c in corp if c.get("kind") == "trajectory"] + systematic_trajectories(), clk, "systematic")
+        check_trajectories(ctx, mb, st, [gen_trajectory(ctx.rng) for _ in range(ctx.scale(150, 12000))], clk, "random")
+        check_vam_states(ctx, mb, st, clk, ctx.scale(1, 40))
         check_gdt(ctx, mb, ctx.scale(1500, 100000), [c["ms"] for c in corp if c.get("kind") in ("gdt", "rec")])
         check_rx(ctx, mb, st, clk, ctx.scale(40, 5000), [c["ms"] for c in corp if c.get("kind") == "rx"])
     check_uper(ctx, mb, ctx.scale(300, 20000))
@@ -1185,6 +1780,10 @@ def search(ctx):
     try:
         with rs.VClock(T0) as clk:
             check_histories(ctx, mb, st, SYSTEMATIC_HISTORIES, clk, "search-systematic")
+            check_trajectories(ctx, mb, st, systematic_trajectories(), clk, "search-systematic")
+            check_vam_states(ctx, mb, st, clk, 3)
+            if not ctx.violations:
+                check_trajectories(ctx, mb, st, [gen_trajectory(ctx.rng) for _ in range(ctx.scale(600, 30000))], clk, "search")
             check_roles(ctx, mb, st, clk, 2)
             check_gdt(ctx, mb, ctx.scale(4000, 200000))
             check_rx(ctx, mb, st, clk, ctx.scale(200, 10000))
@@ -1229,6 +1828,29 @@ def replay(ctx, obj):
                             print(f"report #{i + 1} {present(tpv)}: {what}")
                             bad.append(what)
             print(f"{len(bad)} violations on this history")
+            return bool(bad)
+        if kind == "trajectory":
+            stype, role = case.get("stype", 5), case.get("role", 0)
+            _, res = run_trajectory(st, [(g, t) for g, t in case["steps"]], stype, role, clk, case.get("ldm", "none"))
+            bad = []
+            for i, (tpv, now_gen, now_read, msg, earlier, store_len) in enumerate(res):
+                for what, f in judge_trajectory_step(tpv, now_read, msg, earlier, stype, role, st):
+                    if f is None:
+                        print(f"report #{i + 1} {present(tpv)}: {what}")
+                        bad.append(what)
+            print(f"{sum(1 for r in res if r[3].payload is not None)} CAMs handed to BTP for {len(res)} reports, {len(bad)} violations")
+            return bool(bad)
+        if kind == "vamstate":
+            stype = case.get("stype", 1)
+            res = vam_state_run(st, case["state"], case["ldm"], case["reports"], stype, clk)
+            bad = []
+            for i, (tpv, msg, fed, tokens) in enumerate(res):
+                decoded = st.vam_coder.decode(msg.payload) if msg.payload is not None and not msg.err else None
+                for what, f in judge_vam_state(case["state"], case["ldm"], tpv, msg, fed, stype, st, decoded):
+                    if f is None:
+                        print(f"report #{i + 1}: {what}")
+                        bad.append(what)
+            print(f"{len(bad)} violations in clustering state {case['state']} with LDM adapter {case['ldm']}")
             return bool(bad)
         if kind == "roles":
             stn = CamStation(st.cam_coder, case.get("stype", 5), case["role"])
